@@ -223,9 +223,11 @@ def szCmdC (l : Limits) : Ctor → List Int → Option SzR
   | .save_nested => ar1 fun d => saveVariable (valNested (d.toNat - 1)) l.maxString
   | .copy_nested => ar1 fun d => if deepCopyOk 0 (valNested (d.toNat - 1)) then .ok (max d.toNat 1) else .err
   | .restore_nested =>
-    -- the text "({" * (d-1) + "({})" + ",})" * (d-1) is built first; restore has no nesting limit of its own
+    -- the text "({" * (d-1) + "({})" + ",})" * (d-1) is built first; the size pre-pass of restore refuses text nested
+    -- deeper than MAX_SAVE_SVALUE_DEPTH (C16's fix c9a3442)
     ar1 fun d => andThen (repeatString 2 (d - 1) l.maxString) fun a => andThen (stringJoin a 4 l.maxString) fun b =>
-      andThen (repeatString 3 (d - 1) l.maxString) fun c => andThen (stringJoin b c l.maxString) fun _ => .ok (max d.toNat 1)
+      andThen (repeatString 3 (d - 1) l.maxString) fun c => andThen (stringJoin b c l.maxString) fun _ =>
+        if restoreWalk 0 (valNested (d.toNat - 1)) then .ok (max d.toNat 1) else .err
   | .restore_array => ar1 fun n => andThen (repeatString 2 n l.maxString) fun a => andThen (stringJoin 2 a l.maxString) fun b =>
       andThen (stringJoin b 2 l.maxString) fun _ => restoreArray n.toNat l.maxArray
   | .restore_mapping =>
